@@ -102,6 +102,16 @@ def CState.isInRange {α} (c : CState α) : Except Err Tern :=
     | false => .ok .U
     | true => .ok (Tern.ofBool (decide (-1 < index ∧ index < recordLen rows)))
 
+/-- eval.go `evalCursorStatus`: `CURSOR c IS [NOT] OPEN / IN RANGE` — the error of the status passes through,
+    NOT is the three-valued negation (NOT UNKNOWN = UNKNOWN) -/
+def cursorStatus (negation : Bool) (r : Except Err Tern) : Except Err Tern :=
+  match r with
+  | .error e => .error e
+  | .ok t =>
+    match negation with
+    | true => .ok t.not
+    | false => .ok t
+
 def CState.count {α} (c : CState α) : Except Err Int :=
   match c with
   | .closed => .error .closed
